@@ -304,6 +304,56 @@ int main(int argc, char** argv) {
       ctx.worst(std::string("metric.triangle_excess_over_tol.") + svn, (double)(wt / (3 * tol)), E.name);
     }
   }
+  // =========================================================================================== prolate, lon12 = 180
+  // GenInverse accepts the meridional geodesic over the pole when sig12 < 1 or m12 >= 0.  On prolate ellipsoids the meridian stops being
+  // the shortest path at a conjugate point that comes before 90 deg of arc: b/a in {2, 2.5, 3} (for b/a >= 4 the unchanged code is already
+  // wrong, see the known findings of `pairs`).  All latitude pairs of a grid with lon12 = 180 exactly (poles included): the returned
+  // geodesic must join the points, contain no conjugate point (true m12 >= 0 along it), and must not be longer than the broken path
+  // through the points 90 deg away on the equator side.
+  ctx.sub("prolate-lon180");
+  ctx.bound("prolate-lon180.ellipsoids", "b/a in {2, 2.5, 3} (quarter meridian 1e7 m) x {GeodesicExact, Geodesic(exact=true)}");
+  ctx.bound("prolate-lon180.pairs", T ? "lat1, lat2 in {-90, -89, ..., 90} (1 deg), lon1 in {0, 100.1}, lon2 = lon1 + 180 (2 x 32761 pairs per ellipsoid)" : "lat1, lat2 in {-90, -87.5, ..., 90} (2.5 deg), lon1 = 0, lon2 = 180 (5329 pairs per ellipsoid)");
+  {
+    const double step = T ? 1.0 : 2.5; const int nl = int(180 / step) + 1;
+    for (double ba : {2.0, 2.5, 3.0}) {
+      geodtab::Ell E; { char nm[32]; snprintf(nm, sizeof nm, "b/a=%g", ba); E.name = nm; }
+      E.f = 1 - ba; { geod_ode::Ellipsoid<ld> e1(1.0, E.f); E.a = (double)(1e7L / e1.quarter_meridian()); }
+      E.quick = true; E.series = false; E.e = geod_ode::Ellipsoid<ld>(E.a, E.f); E.Q = E.e.quarter_meridian();
+      const ld tol = geodtab::tol_exact(E);
+      for (double lon1 : (T ? std::vector<double>{0, 100.1} : std::vector<double>{0})) for (int i1 = 0; i1 < nl; ++i1) {
+        if (!ctx.take()) continue;
+        Solvers S; S.make(E);
+        const double lat1 = -90 + i1 * step, lon2 = lon1 + 180;
+        for (int i2 = 0; i2 < nl; ++i2) {
+          const double lat2 = -90 + i2 * step;
+          ld r1[3], r2[3], N[3], Ev[3]; E.e.frame(lat1, lon1, r1, N, Ev); E.e.frame(lat2, lon2, r2, N, Ev);
+          ld r2in1[3]; { ld sn, cs; geod_ode::sincosd<ld>(lon1, sn, cs); r2in1[0] = cs * r2[0] + sn * r2[1]; r2in1[1] = -sn * r2[0] + cs * r2[1]; r2in1[2] = r2[2]; }
+          for (int sv = 1; sv < 3; ++sv) {
+            Ctx::Case cs(ctx);
+            Res R = S.inv(sv, lat1, lon1, lat2, lon2); ++ncalls;
+            auto where = [&] { return E.name + " a=" + fx(E.a) + " " + fmt(lat1) + " " + fmt(lon1) + " " + fmt(lat2) + " " + fmt(lon2) + " " + svname(sv); };
+            auto bad = [&](const char* kind, const std::string& msg) { ctx.fail(std::string("ba") + fmt(ba) + "/lo" + fmt(lon1) + "/" + std::to_string(i1) + "," + std::to_string(i2) + "/" + svname(sv) + "/" + kind, where() + ": " + msg, {{"kind", kind}, {"ell", E.name}, {"solver", svname(sv)}}); };
+            if (!finite(R)) { bad("nonfinite", "output not finite"); continue; }
+            Traj<ld> tf(E.e, 30, 1e-22L, 1.0L, false); tf.init(lat1, R.azi1); tf.advance((ld)R.s12 / E.e.a); Point<ld> pf = tf.point(); ++ntraj;
+            ld d = 0; for (int q = 0; q < 3; ++q) { ld x = pf.r[q] - r2in1[q] * E.e.a; d += x * x; } d = sqrtl(d);
+            ctx.worstf(std::string("prolate180.landing.err_over_tol.") + svname(sv), (double)(d / (128 * tol)), where);
+            // (nearly antipodal pairs: the accuracy class of `pairs`, up to 128 x tolerance, is a known finding; anything beyond is gross)
+            if (!(d <= 128 * tol)) bad("forward", "following azi1=" + fx(R.azi1) + " s12=" + fx(R.s12) + " ends " + fmtl(d) + " m from point 2");
+            ctx.worstf(std::string("prolate180.minus_m12_over_tol.") + svname(sv), (double)(-pf.m12 / (4 * tol)), where);
+            if (!(pf.m12 >= -4 * tol)) bad("conjugate", "the returned geodesic (azi1=" + fx(R.azi1) + ", s12=" + fx(R.s12) + ", library m12=" + fx(R.m12) + ") contains a conjugate point: true m12 = " + fmtl(pf.m12) + ", so it is not the shortest path");
+            // broken path through a point a quarter turn away
+            for (double lom : {lon1 + 90, lon1 - 90}) {
+              double lam = 0.5 * (lat1 + lat2);
+              Res A = S.inv(sv, lat1, lon1, lam, lom), B = S.inv(sv, lam, lom, lat2, lon2); ncalls += 2;
+              ld ex = (ld)R.s12 - ((ld)A.s12 + (ld)B.s12);
+              ctx.worstf(std::string("prolate180.broken_path_excess_over_tol.") + svname(sv), (double)(ex / (3 * tol)), where);
+              if (!(ex <= 3 * tol)) bad("broken-path", "s12 = " + fx(R.s12) + " is longer than the path through (" + fmt(lam) + "," + fmt(lom) + "): " + fx(A.s12) + " + " + fx(B.s12));
+            }
+          }
+        }
+      }
+    }
+  }
   ctx.count("calls", ncalls); ctx.count("oracle_trajectories", ntraj); ctx.count("triples", ntrip);
   return ctx.finish();
 }
